@@ -2,7 +2,6 @@ package c13
 
 import (
 	"fmt"
-	"math/rand"
 	"sort"
 	"strings"
 	"testing"
@@ -243,5 +242,3 @@ func exchangeFailures(ex *exchangeResult, prefix string, concurrent, realSocket 
 	}
 	return vrun.Result{}, false
 }
-
-var _ = rand.Int
